@@ -175,4 +175,9 @@ MUTANTS = [
             return_exceptions=self._return_exceptions,
             preprocessor=self._preprocessor,
             loop=asyncio.get_running_loop(),"""),
+    # ---------------- C19
+    dict(id='C19-m1', prop='C19', file=S, desc='batch may grow to batch_size+1',
+         old="            while n < batchsize:\n                t = deadline - time.perf_counter()", new="            while n <= batchsize:\n                t = deadline - time.perf_counter()"),
+    dict(id='C19-m3', prop='C19', file=S, desc='past the deadline the batcher no longer picks up items that are already queued',
+         old="                    z = q_in.get(timeout=max(0, t))", new="                    if t <= 0 and n > 1:\n                        raise queue.Empty\n                    z = q_in.get(timeout=max(0, t))"),
 ]
